@@ -1,0 +1,16 @@
+//go:build verif
+// +build verif
+
+// Contracts for package config (checked by /verif/govc). Compiled only with -tags verif.
+
+package config
+
+//@ func IsValidKeySize
+//@   props C09 C11
+//@   ints both
+//@   inline
+
+//@ func IsValidValueSize
+//@   props C09 C11
+//@   ints both
+//@   inline
